@@ -15,6 +15,7 @@ pub struct VxOutPointSet { _p: u8 }
 impl Clone for VxOutPointSet { #[verifier::external_body] fn clone(&self) -> (r: Self) ensures r == *self { unimplemented!() } }
 
 //@const vls-core/src/monitor.rs :: MIN_DEPTH
+//@const vls-core/src/monitor.rs :: MAX_CLOSING_DEPTH
 //@type vls-core/src/monitor.rs :: SecondLevelHTLCOutput derive=Clone
 //@type vls-core/src/monitor.rs :: ClosingOutpoints derive=Clone
 //@type vls-core/src/monitor.rs :: State derive=Clone
